@@ -172,6 +172,7 @@ func ProfileByName(name string) *Profile {
 		p.IgnoreCase = 25
 		p.CharAlt = 30
 		p.SharedLeaf = 25
+		p.Splice = 25
 		p.RuleLabels = true
 		p.PredAct = 35
 		p.W[KAnd], p.W[KNot] = 6, 6
